@@ -3,9 +3,12 @@
 (* Trace validation for the signed distance functions (C19).               *)
 (*                                                                         *)
 (* trace.ndjson: one line per (case, block of sample points)               *)
-(*   {"k":"sdf","id":case,"blk":block,"den":D,"q":scale,"shape":{..},      *)
+(*   {"k":"sdf","id":case,"blk":block,"den":D,"e2":E,"q":scale,"shape":{..},*)
 (*    "pts":[[x,y,z,F,sg],..],"nan":count,"ops":[[F1,sg1,F2,sg2,..],..]}   *)
-(* x,y,z : sample point in lattice units (real point = integer / den)      *)
+(* x,y,z : sample point in lattice units (real point = integer / den *     *)
+(*         2^e2: the binary magnitude at which the real closure was built  *)
+(*         and sampled; the judgement is made in lattice units and is the  *)
+(*         same at every magnitude)                                        *)
 (* F     : round(f(p) * den * q), sg : sign of the float f(p)              *)
 (* ops   : per point, value and sign of the operand closures: for a        *)
 (*         combinator its operands at p, for a translation the inner       *)
@@ -34,7 +37,7 @@ VARIABLES l, cnt
 vars == <<l, cnt>>
 
 Types == {"sphere", "box", "rbox", "line", "rcone", "rcyl", "plane", "tr", "union", "inter", "sub"}
-Keys == Types \cup {"lines", "in", "out", "surf", "euclid", "pairs", "setops", "mixed", "translate"}
+Keys == Types \cup {"lines", "in", "out", "surf", "euclid", "pairs", "setops", "mixed", "translate", "scaled", "tiny", "huge"}
 
 If(c, name) == IF c THEN {name} ELSE {}
 Count(S) == Cardinality(S)
@@ -73,6 +76,9 @@ Result(ln, PP, FF, cls, opr) ==
                    [] k = "setops" -> IF isOp THEN Count({i \in I : opr[i]}) ELSE 0
                    [] k = "mixed" -> IF isOp THEN Count({i \in I : \E j, k2 \in DOMAIN s.ss : OG(i, j) # OG(i, k2)}) ELSE 0
                    [] k = "translate" -> IF isTr THEN Count({i \in I : opr[i]}) ELSE 0
+                   [] k = "scaled" -> IF ln.e2 # 0 THEN 1 ELSE 0
+                   [] k = "tiny" -> IF ln.e2 <= 0 - 12 THEN 1 ELSE 0
+                   [] k = "huge" -> IF ln.e2 >= 12 THEN 1 ELSE 0
                    [] OTHER -> 0]
     IN [bad |-> bad, add |-> add]
 
@@ -81,7 +87,7 @@ WellFormed(ln) ==
         n == Len(ln.pts)
         isOp == s.t \in {"union", "inter", "sub"}
         isTr == s.t = "tr"
-    IN /\ s.t \in Types /\ Admissible(s) /\ ln.q >= 1 /\ ln.den >= 1 /\ n >= 1
+    IN /\ s.t \in Types /\ Admissible(s) /\ ln.q >= 1 /\ ln.den >= 1 /\ n >= 1 /\ ln.e2 \in (0 - 200)..200
        /\ \A i \in 1..n : Len(ln.pts[i]) = 5
        /\ (isOp \/ isTr) => Len(ln.ops) = n
        /\ isOp => \A i \in 1..n : Len(ln.ops[i]) = 2 * Len(s.ss)
